@@ -1,5 +1,6 @@
 import SimilarVerif.Lemmas.Compact
 import SimilarVerif.Props.C01
+import SimilarVerif.Lemmas.Capture
 /-!
 # C11 — every captured op carries exact positions in both sequences
 
@@ -53,5 +54,13 @@ theorem myers_raw_exact (E : Env) (hbox : MyersP.SnakeInBox E) (hfound : MyersP.
     (hclock : w.clock = none) (h : rawTrace .myers E os oe ns ne w = .ok (r', w')) :
     ∃ ops, r'.trace = ops.map Call.op ++ [.finish] ∧ Walk (eqB E) os ns ops oe ne ∧ Exact os ns ops :=
   MyersP.myers_exact E hbox hfound os oe ns ne w r' w' ho hn hb hclock (by simpa [rawTrace, diffWith] using h)
+
+end SimilarVerif.C11
+
+namespace SimilarVerif.C11
+open SimilarVerif Spec
+
+/-- **end to end with the repaired swap**: exact raw streams give exact captured ops -/
+theorem capture_exact_repaired : type_of% @CaptureP.capture_exact_repaired := @CaptureP.capture_exact_repaired
 
 end SimilarVerif.C11
